@@ -66,3 +66,47 @@ Theorem C01_separate_spec : forall a b,
                (separator_len sep <= separator_len s)%nat).
 Proof. exact BitOps_proofs.separate_spec. Qed.
 Print Assumptions C01_separate_spec.
+
+(* ---- rebuilding branch nodes (mirror BranchBuild.v of BranchGauge / BranchOpsTracker / BranchUpdater /
+   BranchNodeBuilder, compared with the real updater by the engine `nv bb`): for every base node of
+   the shape node_wf, every tracker content a digest can leave behind and every ascending sequence of
+   ingested separators, every node the updater builds has exactly the body size its gauge computed,
+   fits into the page (the separator bits end before the node pointers), and is node_wf again with
+   canonical stored lengths ---- *)
+From Nomt Require Import Image BranchBuild BranchBuild_proofs.
+
+Theorem C01_branch_gauge_exact : forall u sg nodes u' nm,
+  carry (u_t u) -> stage_ok (u_t u) sg -> run_stage true u sg = Some (nodes, u', nm) ->
+  forall m, In m nodes -> bo_gauge_body m = node_body (bo_node m).
+Proof. exact BranchBuild_proofs.gauge_exact. Qed.
+Print Assumptions C01_branch_gauge_exact.
+
+Theorem C01_branch_built_node_fits : forall u sg nodes u' nm,
+  carry (u_t u) -> stage_ok (u_t u) sg -> run_stage true u sg = Some (nodes, u', nm) ->
+  forall m, In m nodes ->
+    (node_body (bo_node m) <= BODY
+     /\ BRANCH_HEADER + 2 * N.of_nat (bn_n (bo_node m))
+        + (bn_plen (bo_node m) + sumN (map it_len (bn_items (bo_node m))) + 7) / 8
+        <= PAGE - 4 * N.of_nat (bn_n (bo_node m)))%N.
+Proof. exact BranchBuild_proofs.built_node_fits. Qed.
+Print Assumptions C01_branch_built_node_fits.
+
+Theorem C01_branch_built_node_canonical : forall u sg nodes u' nm,
+  carry (u_t u) -> stage_ok (u_t u) sg -> run_stage true u sg = Some (nodes, u', nm) ->
+  (forall m, In m nodes -> node_wf (bo_node m) = true /\ canonical (bo_node m) = true
+                           /\ bo_n m = bn_n (bo_node m) /\ bo_pushed m = bn_n (bo_node m))
+  /\ carry (u_t u').
+Proof. exact BranchBuild_proofs.built_node_canonical. Qed.
+Print Assumptions C01_branch_built_node_canonical.
+
+(* the code before the repair of defect N12 violates the first and the third statement on a stage
+   that satisfies their hypotheses (gauge 30 bytes, node 33 bytes) *)
+Theorem C01_branch_gauge_exact_refuted_before_fix :
+  carry t0 /\ stage_ok t0 rf_stage
+  /\ exists m u' nm,
+       run_stage false u0 rf_stage = Some ([m], u', nm)
+       /\ bo_gauge_body m = 30%N /\ node_body (bo_node m) = 33%N
+       /\ map it_len (bn_items (bo_node m)) = [20; 23; 22; 2]%N
+       /\ canonical (bo_node m) = false.
+Proof. exact BranchBuild_proofs.gauge_exact_refuted. Qed.
+Print Assumptions C01_branch_gauge_exact_refuted_before_fix.
